@@ -12,6 +12,16 @@ wrote, so `updatePool`/`refund` return the state written so far together with th
 Ghost (history) fields, never read by the modelled code and never printed:
 `Rule.released/refunded/nRefund/acc/nRel` and the per-(farmer,pool,denom) `Ledger`.
 
+Community-pool path (keeper/proposal.go, proposal_hook.go, msg_server.go
+`CreatePoolWithCommunityPool`, the `distrModuleAddr.Equals(creator)` branch of `Refund`): the
+distribution fee pool's community pool (`sdk.DecCoins`, raw 18-decimal units per denom), the
+`EscrowCollector` module account ("escrow"), the escrow-info table, the distribution module
+account ("distr") as pool creator, and the slice of x/gov the path goes through (proposal table
+with status and the proposer's deposit held by the "gov" module account, `SubmitProposal` with
+its dry run of the content handler, `AddDeposit`, and what gov's EndBlocker does with one
+proposal: `cpPass` / `cpReject` / `cpFailDeposit`).  The hooks write into the block state and
+swallow their errors: `refundEscrow` returns the state written so far.
+
 Arithmetic: coin amounts are ℕ (sdkmath.Int's 256-bit overflow panic is outside the
 alphabet: amounts stay far below 2^200); `rewardPerShare` is `Sdk.Dec` with the library's
 315-bit range check on `Add`/`MulInt` and the 256-bit check of `TruncateInt`; `Int64()`
@@ -89,6 +99,49 @@ structure Ledger where
   slack   : Nat := 0
   deriving Repr, Inhabited
 
+/-- the content of a `CommunityPoolCreateFarmProposal` (title / description are gov metadata) -/
+structure Content where
+  desc     : String
+  lpt      : Denom
+  rpb      : CoinList
+  applied  : CoinList
+  selfBond : CoinList
+  deriving Repr, Inhabited
+
+/-- x/gov proposal status (a proposal that failed its minimum deposit is deleted) -/
+inductive PStatus where
+  | deposit | voting | passed | rejected | failed
+  deriving Repr, Inhabited, DecidableEq
+
+/-- the slice of a gov proposal the path reads: proposer, status, the proposer's deposit still
+held by the gov module account, and the content the legacy handler executes -/
+structure Proposal where
+  proposer : Addr
+  status   : PStatus
+  deposit  : Nat
+  content  : Content
+  deriving Repr, Inhabited
+
+/-- `EscrowInfo` (store prefix 0x07, key = proposal id) -/
+structure Escrow where
+  proposer : Addr
+  applied  : CoinList
+  selfBond : CoinList
+  deriving Repr, Inhabited
+
+/-- everything the community-pool path adds to the state -/
+structure Cp where
+  /-- `FeePool.CommunityPool`: raw 18-decimal units per denom -/
+  pool       : AMap Denom Nat := []
+  escrow     : AMap Nat Escrow := []
+  props      : AMap Nat Proposal := []
+  /-- gov's `ProposalID` sequence -/
+  nextId     : Nat := 1
+  /-- gov params: `MinDeposit` (in the bond denom) and `MinDeposit × MinDepositRatio` truncated -/
+  minDeposit : Nat := 10000000
+  minFirst   : Nat := 100000
+  deriving Repr, Inhabited
+
 structure Params where
   fee    : Nat := 5000
   tax    : Dec := ⟨400000000000000000⟩
@@ -107,6 +160,8 @@ structure State where
   ledger  : AMap (Addr × PoolId × Denom) Ledger := []
   /-- output of the last accepted stake / unstake / harvest: the `Reward` of the response -/
   resp    : CoinList := []
+  /-- community pool, escrow infos, gov proposals -/
+  cp      : Cp := {}
   deriving Repr, Inhabited
 
 inductive Op where
@@ -117,6 +172,16 @@ inductive Op where
   | unstake (sender : Addr) (pool : PoolId) (denom : Denom) (amt : Nat)
   | harvest (sender : Addr) (pool : PoolId)
   | endBlocks (n : Nat)
+  /-- `MsgCreatePoolWithCommunityPool` -/
+  | cpSubmit (proposer : Addr) (title : String) (content : Content) (deposit : CoinList)
+  /-- gov's EndBlocker on one proposal whose voting period ended with a passing tally -/
+  | cpPass (pid : Nat)
+  /-- … with a failing tally (deposits refunded) -/
+  | cpReject (pid : Nat)
+  /-- gov's EndBlocker on one proposal whose deposit period ended below the minimum deposit -/
+  | cpFailDeposit (pid : Nat)
+  /-- `MsgFundCommunityPool` -/
+  | fundCp (sender : Addr) (amt : CoinList)
   deriving Repr, Inhabited
 
 abbrev R := Except Err State
@@ -127,6 +192,17 @@ def farmAcc : Addr := "farm"
 def collectorAcc : Addr := "collector"
 def feesAcc : Addr := "fees"
 def feeDenom : Denom := "stake"
+/-- the `EscrowCollector` module account -/
+def escrowAcc : Addr := "escrow"
+/-- the distribution module account (`communityPoolName`): holds the community pool's coins and
+is the creator of every pool funded from it -/
+def distrAcc : Addr := "distr"
+/-- the gov module account (holds the deposits) -/
+def govAcc : Addr := "gov"
+/-- gov's deposit denom (the bond denom) -/
+def depositDenom : Denom := "stake"
+/-- 10^18: one coin unit in `sdk.DecCoin` raw units -/
+def decUnit : Nat := 1000000000000000000
 
 def maxI64 : Int := 9223372036854775807
 def pow63 : Nat := 9223372036854775808
@@ -148,7 +224,8 @@ def sortedCoins : CoinList → Bool
   | _ => true
 
 /-- accounts without a key: they never sign a message -/
-def isModuleAcc (a : Addr) : Bool := a = "farm" || a = "collector" || a = "fees"
+def isModuleAcc (a : Addr) : Bool :=
+  a = "farm" || a = "collector" || a = "fees" || a = "escrow" || a = "distr" || a = "gov"
 
 /-- the liquidity-pool token denoms coinswap's `ValidatePool` accepts in the harness universe -/
 def validLpt (d : Denom) : Bool := d = "lpt-1" || d = "lpt-2"
@@ -389,7 +466,28 @@ def zeroRules (rs : List Rule) : List Rule :=
 /-- `refundTotal` -/
 def refundCoins (rs : List Rule) : CoinList := nonzero (rs.map fun r => (r.denom, r.remaining))
 
-/-- `Refund`: state written so far and the verdict -/
+/-! ### the community pool (distribution fee pool) -/
+
+def cpGet (m : AMap Denom Nat) (d : Denom) : Nat := AMap.getD m d 0
+
+/-- `CommunityPool.Add(sdk.NewDecCoinsFromCoins(coins...)...)` -/
+def cpAddCoins (m : AMap Denom Nat) : CoinList → AMap Denom Nat
+  | [] => m
+  | (d, n) :: t => cpAddCoins (AMap.set m d (cpGet m d + n * decUnit)) t
+
+/-- `CommunityPool.SafeSub(sdk.NewDecCoinsFromCoins(coins...))`; `none` = negative -/
+def cpSubCoins (m : AMap Denom Nat) : CoinList → Option (AMap Denom Nat)
+  | [] => some m
+  | (d, n) :: t => if cpGet m d < n * decUnit then none else cpSubCoins (AMap.set m d (cpGet m d - n * decUnit)) t
+
+/-- the fee-pool leg of `refundToFeePool` / `FundCommunityPool` (`GetFeePool`, `Add`, `SetFeePool`),
+performed iff `b` -/
+def creditIf (b : Bool) (s : State) (coins : CoinList) : State :=
+  { s with cp := { s.cp with pool := if b then cpAddCoins s.cp.pool coins else s.cp.pool } }
+
+/-- `Refund`: state written so far and the verdict.  When the creator is the distribution module
+account the coins go there by `refundToFeePool` (module-to-module send, then the fee pool is
+credited); otherwise to the creator's account. -/
 def refund (s : State) (id : PoolId) (p : Pool) : State × Option Err :=
   match updatePool (dequeue s id p.endH) id p 0 true with
   | (s1, .error e) => (s1, some e)
@@ -399,7 +497,7 @@ def refund (s : State) (id : PoolId) (p : Pool) : State × Option Err :=
     else
       match sendAll (setPool s1 id { p1 with rules := zeroRules p1.rules }) farmAcc p1.creator (refundCoins p1.rules) with
       | .error e => (setPool s1 id { p1 with rules := zeroRules p1.rules }, some e)
-      | .ok s2 => (s2, none)
+      | .ok s2 => (creditIf (p1.creator == distrAcc) s2 (refundCoins p1.rules), none)
 
 def stepDestroyPool (s : State) (sender : Addr) (id : PoolId) : R :=
   match getPool s id with
@@ -621,13 +719,194 @@ def endBlocks : Nat → State → State × Bool
     | .error _ => (s, true)
     | .ok s1 => endBlocks n { s1 with height := s1.height + 1 }
 
-/-! ### dispatch -/
+/-! ### community-pool farms: MsgCreatePoolWithCommunityPool, the proposal handler, the gov hooks -/
 
+/-- `genPoolId` -/
 def poolIdOf (seq : Nat) : PoolId := "farm-" ++ toString seq
+
+/-- `coins.Add(c)` on a list sorted by denom -/
+def addCoin (c : Denom × Nat) : CoinList → CoinList
+  | [] => [c]
+  | (d, n) :: t =>
+    if c.1 < d then c :: (d, n) :: t
+    else if c.1 = d then (d, n + c.2) :: t
+    else (d, n) :: addCoin c t
+
+/-- `sdk.NewCoins(a...).Add(b...)` on sorted lists: per-denom sums, zero coins dropped -/
+def mergeCoins (a b : CoinList) : CoinList := nonzero (b.foldl (fun acc c => addCoin c acc) a)
+
+/-- `total := sdk.NewCoins(p.FundApplied...).Add(p.FundSelfBond...)` -/
+def totalOf (c : Content) : CoinList := mergeCoins c.applied c.selfBond
+
+/-- `HandleCreateFarmProposal`: move the escrowed total to the farm module account and create a
+non-editable pool owned by the distribution module account, starting at the current height.  (The
+three guards never fire on a stored proposal: they are functions of the content alone, the
+content is immutable, and `SubmitProposal` ran this very handler on it; on submission they
+cannot fire either for a content that passed `ValidateBasic` — the pool description is at most
+280 bytes, `total` has `len(applied) + len(selfBond) ≥ 1` entries and merging sorted lists gives
+a sorted list (`Proofs.Farm.cpHandler_guards_never_fire`).  They spare the invariant proofs a
+stored-content invariant.) -/
+def cpHandler (s : State) (c : Content) : R :=
+  if c.desc.utf8ByteSize > 280 then .error (.panic "outside the alphabet: description") else
+  if totalOf c = [] then .error (.panic "outside the alphabet: empty total") else
+  if !(sortedCoins (totalOf c)) then .error (.panic "outside the alphabet: unsorted total") else
+  match sendAll s escrowAcc farmAcc (totalOf c) with
+  | .error e => .error e
+  | .ok s1 => createPoolCore s1 (poolIdOf (s1.seq + 1)) distrAcc c.desc c.lpt s1.height c.rpb (totalOf c) false
+
+/-- `escrowFromFeePool` -/
+def escrowFromFeePool (s : State) (applied : CoinList) : R :=
+  match cpSubCoins s.cp.pool applied with
+  | none => .error (.reject "bad distribution")
+  | some pool' =>
+    match sendAll s distrAcc escrowAcc applied with
+    | .error e => .error e
+    | .ok s1 => .ok { s1 with cp := { s1.cp with pool := pool' } }
+
+/-- gov `SubmitProposal` (after the dry run) + `AddDeposit` + `SetEscrowInfo` -/
+def cpRecord (s : State) (proposer : Addr) (c : Content) (deposit : CoinList) : R :=
+  -- AddDeposit: only the bond denom; at least MinDeposit × MinDepositRatio in it
+  if deposit.any (fun x => x.1 ≠ depositDenom) then .error (.reject "invalid deposit denom") else
+  if deposit = [] ∨ amountOf deposit depositDenom < s.cp.minFirst then .error (.reject "min deposit too small") else
+  match sendAll s proposer govAcc deposit with
+  | .error e => .error e
+  | .ok s1 =>
+    .ok { s1 with cp := { s1.cp with
+      props := AMap.set s1.cp.props s1.cp.nextId
+        { proposer := proposer,
+          status := if amountOf deposit depositDenom ≥ s1.cp.minDeposit then .voting else .deposit,
+          deposit := amountOf deposit depositDenom, content := c },
+      nextId := s1.cp.nextId + 1,
+      escrow := AMap.set s1.cp.escrow s1.cp.nextId { proposer := proposer, applied := c.applied, selfBond := c.selfBond } } }
+
+/-- the msg server after `ValidateBasic` -/
+def cpSubmitCore (s : State) (proposer : Addr) (c : Content) (deposit : CoinList) : R :=
+  if (totalOf c).length > s.params.maxcat then .error (.reject "too many reward categories") else
+  if !(validLpt c.lpt) then .error (.reject "invalid lp token") else
+  match sendAll s proposer escrowAcc c.selfBond with
+  | .error e => .error e
+  | .ok s1 =>
+    match escrowFromFeePool s1 c.applied with
+    | .error e => .error e
+    | .ok s2 =>
+      -- gov SubmitProposal runs the legacy content handler once on a cache context that is dropped
+      match cpHandler s2 c with
+      | .error e => .error e
+      | .ok _ => cpRecord s2 proposer c deposit
+
+def stepCpSubmit (s : State) (proposer : Addr) (title : String) (c : Content) (deposit : CoinList) : R :=
+  if !(sortedCoins c.rpb && sortedCoins c.applied && sortedCoins c.selfBond) then
+    .error (.reject "outside the alphabet: unsorted coins") else
+  -- ValidateBasic
+  if !(sortedCoins deposit) ∨ deposit.any (fun x => x.2 = 0) then .error (.reject "invalid initial deposit") else
+  if title = "" then .error (.reject "proposal title") else
+  if c.desc.utf8ByteSize > 280 then .error (.reject "description") else
+  if c.rpb = [] then .error (.reject "rewardPerBlock empty") else
+  if c.applied = [] then .error (.reject "fundApplied empty") else
+  if c.applied.length + c.selfBond.length ≠ (totalOf c).length then .error (.reject "invalid proposal: overlapping or zero funds") else
+  match validateReward c.rpb (totalOf c) with
+  | .error e => .error e
+  | .ok _ => cpSubmitCore s proposer c deposit
+
+/-- `MsgFundCommunityPool`: `validateAmount`, then `FundCommunityPool` -/
+def stepFundCp (s : State) (sender : Addr) (amt : CoinList) : R :=
+  if !(sortedCoins amt) then .error (.reject "outside the alphabet: unsorted coins") else
+  if amt = [] ∨ amt.any (fun x => x.2 = 0) then .error (.reject "invalid amount") else
+  match sendAll s sender distrAcc amt with
+  | .error e => .error e
+  | .ok s1 => .ok (creditIf true s1 amt)
+
+def delEscrow (s : State) (pid : Nat) : State :=
+  { s with cp := { s.cp with escrow := AMap.erase s.cp.escrow pid } }
+
+def setProp (s : State) (pid : Nat) (pr : Proposal) : State :=
+  { s with cp := { s.cp with props := AMap.set s.cp.props pid pr } }
+
+def delProp (s : State) (pid : Nat) : State :=
+  { s with cp := { s.cp with props := AMap.erase s.cp.props pid } }
+
+/-- `refundEscrow`: every error is swallowed, what was written before it stays -/
+def refundEscrow (s : State) (pid : Nat) (e : Escrow) : State :=
+  match sendAll s escrowAcc e.proposer e.selfBond with
+  | .error _ => s
+  | .ok s1 =>
+    -- refundToFeePool(ctx, EscrowCollector, sdk.NewCoins(info.FundApplied...))
+    match sendAll s1 escrowAcc distrAcc (nonzero e.applied) with
+    | .error _ => s1
+    | .ok s2 => delEscrow (creditIf true s2 (nonzero e.applied)) pid
+
+/-- `GovHook.AfterProposalVotingPeriodEnded` -/
+def hookVotingEnded (s : State) (pid : Nat) : State :=
+  match AMap.get? s.cp.escrow pid with
+  | none => s
+  | some info =>
+    match AMap.get? s.cp.props pid with
+    | none => s
+    | some pr => if pr.status = .passed then delEscrow s pid else refundEscrow s pid info
+
+/-- `GovHook.AfterProposalFailedMinDeposit` -/
+def hookFailedMinDeposit (s : State) (pid : Nat) : State :=
+  match AMap.get? s.cp.escrow pid with
+  | none => s
+  | some info => refundEscrow s pid info
+
+/-- gov `RefundAndDeleteDeposits` (an error aborts gov's EndBlocker: the chain halts) -/
+def refundDeposit (s : State) (pr : Proposal) : Except Err State :=
+  if pr.deposit = 0 then .ok s else
+  match sendAll s govAcc pr.proposer [(depositDenom, pr.deposit)] with
+  | .error _ => .error (.panic "gov: refund deposits")
+  | .ok s1 => .ok s1
+
+/-- gov's EndBlocker on a proposal in its voting period: refund the deposits, (tally passed:) run
+the content handler on a cache context — written only when it succeeds, any error or panic makes
+the proposal `Failed` —, store the proposal, call the hook.  The flag reports an aborted block. -/
+def govTally (s : State) (pid : Nat) (pr : Proposal) (passes : Bool) : State × Bool :=
+  match refundDeposit s pr with
+  | .error _ => (s, true)
+  | .ok s1 =>
+    if passes then
+      match cpHandler s1 pr.content with
+      | .ok s2 => (hookVotingEnded (setProp s2 pid { pr with status := .passed, deposit := 0 }) pid, false)
+      | .error _ => (hookVotingEnded (setProp s1 pid { pr with status := .failed, deposit := 0 }) pid, false)
+    else (hookVotingEnded (setProp s1 pid { pr with status := .rejected, deposit := 0 }) pid, false)
+
+/-- `cpPass` / `cpReject`: a proposal in its voting period is tallied; one still in its deposit
+period is not due (nothing happens); for a proposal gov has finished with (or never had) only
+the hook is called again — a call gov itself never makes, which must change nothing. -/
+def govVote (s : State) (pid : Nat) (passes : Bool) : State × Bool :=
+  match AMap.get? s.cp.props pid with
+  | none => (hookVotingEnded s pid, false)
+  | some pr =>
+    if pr.status = .voting then govTally s pid pr passes
+    else if pr.status = .deposit then (s, false)
+    else (hookVotingEnded s pid, false)
+
+/-- `cpFailDeposit`: gov's EndBlocker on a proposal whose deposit period ended: `DeleteProposal`,
+`RefundAndDeleteDeposits`, the hook.  Same convention for proposals that are not due. -/
+def govFailDeposit (s : State) (pid : Nat) : State × Bool :=
+  match AMap.get? s.cp.props pid with
+  | none => (hookFailedMinDeposit s pid, false)
+  | some pr =>
+    if pr.status = .deposit then
+      match refundDeposit (delProp s pid) pr with
+      | .error _ => (s, true)
+      | .ok s1 => (hookFailedMinDeposit s1 pid, false)
+    else if pr.status = .voting then (s, false)
+    else (hookFailedMinDeposit s pid, false)
+
+/-- is the gov operation due (the result word of the observation: `ok` when gov processes the
+proposal, `rej` when the operation is only the repeated hook call or nothing) -/
+def govDue (s : State) (pid : Nat) (wantDeposit : Bool) : Bool :=
+  match AMap.get? s.cp.props pid with
+  | none => false
+  | some pr => if wantDeposit then pr.status = .deposit else pr.status = .voting
+
+/-! ### dispatch -/
 
 def Op.sender : Op → Addr
   | .createPool a .. | .destroyPool a _ | .adjustPool a .. | .stake a .. | .unstake a .. | .harvest a _ => a
-  | .endBlocks _ => ""
+  | .cpSubmit a .. | .fundCp a _ => a
+  | .endBlocks _ | .cpPass _ | .cpReject _ | .cpFailDeposit _ => ""
 
 def stepMsg (s : State) : Op → R
   | .createPool sender desc lpt start rpb total editable =>
@@ -637,17 +916,25 @@ def stepMsg (s : State) : Op → R
   | .stake sender id denom amt => stepStake s sender id denom amt
   | .unstake sender id denom amt => stepUnstake s sender id denom amt
   | .harvest sender id => stepHarvest s sender id
-  | .endBlocks _ => .ok s
+  | .cpSubmit proposer title c deposit => stepCpSubmit s proposer title c deposit
+  | .fundCp sender amt => stepFundCp s sender amt
+  | .endBlocks _ | .cpPass _ | .cpReject _ | .cpFailDeposit _ => .ok s
 
 def step (s : State) : Op → R
   | .endBlocks n => if (endBlocks n s).2 then .error (.panic "end blocker") else .ok (endBlocks n s).1
+  | .cpPass pid => if (govVote s pid true).2 then .error (.panic "gov end blocker") else .ok (govVote s pid true).1
+  | .cpReject pid => if (govVote s pid false).2 then .error (.panic "gov end blocker") else .ok (govVote s pid false).1
+  | .cpFailDeposit pid => if (govFailDeposit s pid).2 then .error (.panic "gov end blocker") else .ok (govFailDeposit s pid).1
   | op => if isModuleAcc op.sender then .error (.reject "outside the alphabet: module accounts do not sign") else stepMsg s op
 
-/-- the chain-level step: a rejected message leaves the state unchanged; block ends keep
-whatever the EndBlockers wrote -/
+/-- the chain-level step: a rejected message leaves the state unchanged; block ends (the farm
+EndBlocker, gov's EndBlocker on one proposal) keep whatever they wrote -/
 def apply (s : State) (op : Op) : State :=
   match op with
   | .endBlocks n => (endBlocks n s).1
+  | .cpPass pid => (govVote s pid true).1
+  | .cpReject pid => (govVote s pid false).1
+  | .cpFailDeposit pid => (govFailDeposit s pid).1
   | _ =>
     match step s op with
     | .ok s' => s'
